@@ -41,8 +41,11 @@ def exact_equal(a, b):
 
 
 def close(a, b, rtol=1e-12):
-    a = np.asarray(a, dtype=float)
-    b = np.asarray(b, dtype=float)
+    a = np.asarray(a)
+    b = np.asarray(b)
+    if not (np.iscomplexobj(a) or np.iscomplexobj(b)):
+        a = a.astype(float)
+        b = b.astype(float)
     if a.shape != b.shape:
         return False
     scale = float(np.max(np.abs(b))) if b.size else 0.0
@@ -66,6 +69,8 @@ def gen_vector(rng, n, kind, basis_index=0):
         for _ in range(rng.randrange(1, 3)):
             v[rng.choice([0, n - 1, rng.randrange(0, n)])] = rng.choice([float("inf"), 0.0, float("inf")])
         return v
+    if kind == "cvalued":
+        return np.array([complex(rng.uniform(0.5, 100.0), rng.uniform(-1.0, 1.0)) for _ in range(n)])
     if kind == "ints":
         # integer dtype with odd values: halving must not truncate
         return np.array([2 * rng.randrange(1, 50) + 1 for _ in range(n)], dtype=np.int64)
@@ -125,10 +130,15 @@ class Run(object):
         self.stored = np.array(stored, dtype=float).copy() if not np.iscomplexobj(stored) else np.array(stored).copy()
         self.model_ok = True
         if np.iscomplexobj(self.stored):
-            # MultiTapering on complex data hands out a complex-typed array with zero imaginary part
-            if np.any(self.stored.imag != 0):
+            # MultiTapering on complex data hands out a complex-typed array, with method='adapt' even with
+            # non-zero imaginary parts (C19's business).  For complex DATA only twosided <-> centerdc exist,
+            # pure permutations, so the model simply carries the complex values; for real data a
+            # complex-valued one-sided vector is not modelled.
+            if np.all(self.stored.imag == 0):
+                self.stored = self.stored.real.copy()
+            elif not self.cplx:
                 self.model_ok = False
-            self.stored = self.stored.real.copy()
+                self.stored = self.stored.real.copy()
         if len(self.stored) != len(refmodel.bins_of(self.store_sides, self.M)):
             raise ValueError("stored vector of length %d does not fit %s with NFFT=%d"
                              % (len(self.stored), self.store_sides, self.M))
@@ -144,7 +154,7 @@ class Run(object):
         M = self.M
         T = self.T
         got = np.asarray(got)
-        if np.iscomplexobj(got):
+        if np.iscomplexobj(got) and not np.iscomplexobj(T):
             if np.any(got.imag != 0):
                 return Violation("align", idx, "%s has non-zero imaginary parts" % what)
             got = got.real
@@ -186,11 +196,11 @@ class Run(object):
             bad = [j for j in range(len(got)) if not close(got[j:j + 1], expect[j:j + 1])][:4]
             return Violation("align", idx, "%s: entries %s (frequencies %s) hold %s, the source values at those "
                              "frequencies are %s (NFFT=%d, stored as %s)"
-                             % (what, bad, [freqs[j] for j in bad], [float(got[j]) for j in bad],
-                                [float(expect[j]) for j in bad], M, self.store_sides))
+                             % (what, bad, [freqs[j] for j in bad], [complex(got[j]) if np.iscomplexobj(got) else float(got[j]) for j in bad],
+                                [complex(expect[j]) if np.iscomplexobj(expect) else float(expect[j]) for j in bad], M, self.store_sides))
         # power
-        s0 = float(np.sum(self.stored))
-        s1 = float(np.sum(got))
+        s0 = complex(np.sum(self.stored)) if np.iscomplexobj(self.stored) else float(np.sum(self.stored))
+        s1 = complex(np.sum(got)) if np.iscomplexobj(got) else float(np.sum(got))
         if abs(s1 - s0) > 1e-12 * max(abs(s0), float(np.sum(np.abs(self.stored))), 1e-300) * max(1, len(got)):
             return Violation("power", idx, "%s sums to %r, the stored PSD to %r" % (what, s1, s0))
         # restore
@@ -256,6 +266,20 @@ class Run(object):
                 viol = self._check_object(idx)
             elif k == "invalidate":
                 viol, outcome = self._op_invalidate(idx, op)
+            elif k == "noop_assign":
+                # an attribute assigned its current value (possibly under another spelling: NFFT=None while
+                # NFFT equals the data length, 'nextpow2' while it already is that power of two): nothing an
+                # up-to-date PSD depends on changed, so its representation must be left alone
+                a = op["attr"]
+                val = op["value"]
+                if val == "<current>":
+                    val = getattr(p, a)
+                try:
+                    setattr(p, a, val)
+                except Exception as e:
+                    outcome = "raised:" + type(e).__name__
+                if not self.pending:
+                    viol = self._check_object(idx)
             elif k == "helpers":
                 viol = self._op_helpers(idx, op)
             elif k == "arma":
@@ -716,6 +740,20 @@ def gen_op(rng, run):
     cplx = run.cplx
     if run.cfg["kind"] == "est" and rng.random() < 0.18:
         return gen_invalidate(rng, run)
+    if rng.random() < 0.08 and not run.dead:
+        p = run.p
+        cands = [("sampling", "<current>"), ("scale_by_freq", "<current>"), ("NFFT", "<current>")]
+        try:
+            if p.NFFT == p.N:
+                cands.append(("NFFT", None))
+            if p.NFFT == 2 ** int(np.ceil(np.log2(max(p.N, 1)))) and p.N > 1:
+                cands.append(("NFFT", "nextpow2"))
+        except Exception:
+            pass
+        if run.cfg["kind"] == "base" and run.cplx is False:
+            pass
+        a, v = rng.choice(cands)
+        return {"op": "noop_assign", "attr": a, "value": v}
     if r < 0.42:
         val = rng.choice(list(SIDES) + ["default", run.sides])
         if rng.random() < 0.08:
@@ -760,7 +798,7 @@ def run_random(seed):
     if rng.random() < 0.6:
         M = rng.choice([1, 2, 3, 4, 5, 6, 7, 8, 9, 15, 16, 17, 31, 32, 33, 63, 64, rng.randrange(1, 65)])
         cplx = rng.random() < 0.5
-        kind = rng.choice(["basis", "distinct", "random", "ramp", "ints", "withinf"])
+        kind = rng.choice(["basis", "distinct", "random", "ramp", "ints", "withinf"] + (["cvalued"] if cplx else []))
         if rng.random() < 0.25:
             M = rng.randrange(65, 513)           # sizes beyond the systematic stratum (numeric coincidences)
         cfg = base_cfg(rng, cplx, M, kind, rng.randrange(0, 64))
@@ -818,6 +856,8 @@ def describe(cfg, ops):
             out.append("get_converted_psd(%r)" % (o["sides"],))
         elif k == "read":
             out.append("psd")
+        elif k == "noop_assign":
+            out.append("%s=%s" % (o["attr"], "<same>" if o["value"] == "<current>" else repr(o["value"])))
         elif k == "invalidate":
             out.append("%s=%s" % (o["attr"], "<new data>" if o["attr"] == "data" else repr(o["value"])))
         elif k == "setpsd":
